@@ -91,7 +91,12 @@ impl State {
             // If the counter is already idle, and no updates were made since the last time the counter was flushed,
             // then we've already emitted our zero value and no longer need to emit updates until the counter is active
             // again.
-            if points_flushed == 0 {
+            //
+            // We decide this on the delta rather than on the update count: an update makes its value visible before it
+            // is counted, so a flush can observe a non-zero delta together with an update count of zero (that delta has
+            // already been consumed from the counter, and so it must be sent), or a zero delta together with a count
+            // that belongs to a value which was already sent (which must not reset the idle state).
+            if value == 0 {
                 if flush_state.is_counter_idle(&key) {
                     continue;
                 }
